@@ -43,7 +43,7 @@ From RX.Proofs Require Import CharTablesProofs RejectProofs WfParseTok WfParseCh
 From RX.Spec Require CstU CstText CstNs CstFull CstFullS5.
 From RX.Proofs Require CstSoundP CstSoundPRDoc CstSoundPRCor.
 From RX.Spec Require CstFullS4 CstFullS6.
-From RX.Proofs Require KnownFindingsMore KnownFindingsD21 CstSound6P CstSound6 CstSound6U CstSound6uCor CstSound6a CstSound6aFinal CstSound6bFinal CstSound6rCor CstSound6c CstSound6cFinal CstSound6dFinal CstSound6eCor CstFullS6Main CstSound7 CstSound7Final CstSound8 CstSound8Final CstFullRejSem CstFullRejTrace CstFullRejDoc CstFullRejMain CstFullNsRejMain.
+From RX.Proofs Require KnownFindingsMore KnownFindingsD21 CstSound6P CstSound6 CstSound6U CstSound6uCor CstSound6a CstSound6aFinal CstSound6bFinal CstSound6rCor CstSound6c CstSound6cFinal CstSound6dFinal CstSound6eCor CstFullS6Main CstSound7 CstSound7Final CstSound8 CstSound8Final CstSound8Cor CstSound9 CstSound9Final CstFullRejSem CstFullRejTrace CstFullRejDoc CstFullRejMain CstFullNsRejMain.
 From RX.Spec Require CstFullS11.
 From RX.Proofs Require CstFullS11Main CstFullRejS11Sem CstFullRejS11Doc CstFullRejS11Main CstFullRejS11NsMain NsRejDefs NsRejBuild.
 Open Scope N_scope.
@@ -514,8 +514,45 @@ Print Assumptions C08_parse_view_of_witness.
 
 End G18.
 
-(* ---- Proofs/CstSound7Final.v ---- *)
+(* ---- Proofs/CstSound9Final.v ---- *)
 Module G19.
+Import RX.Spec.CstFull. Import RX.Spec.CstFullS5. Import RX.Spec.CstFullS6. Import RX.Spec.CstFullS7. Import RX.Spec.CstFullS8. Import RX.Spec.CstFullS9. Import RX.Proofs.CstNsView. Import RX.Proofs.CstSoundP. Import RX.Proofs.CstSound6. Import RX.Proofs.CstSound6U. Import RX.Proofs.CstSound7. Import RX.Proofs.CstSound8. Import RX.Proofs.CstSound9. Import RX.Proofs.CstSound9Final.
+Theorem C08_parse_sound_fragment_9 :
+  forall text opt d,
+  in_fragment_9 text = true -> allow_dtd opt = true -> parse text opt = Ok d ->
+  exists c : S6.doc, S9.wf_doc c = true /\ S9.render c = text.
+Proof. exact parse_sound_fragment_9. Qed.
+Print Assumptions C08_parse_sound_fragment_9.
+
+Theorem C08_parse_sound_and_complete_9_hyp :
+  forall text opt d,
+  in_fragment_9 text = true -> allow_dtd opt = true -> parse text opt = Ok d ->
+  exists c : S6.doc, S9.wf_doc c = true /\ S9.render c = text /\
+    (N.of_nat (length (S9.sem c)) < u32_max -> N.of_nat (S9.nattrs c) < u32_max ->
+     S9.distinct_decls_le c (N.to_nat 65535) -> 1 + N.of_nat (S9.ns_cost c) <= u32_max ->
+     CstNsView.view text d = Some (S9.sem c)).
+Proof. exact parse_sound_and_complete_9_hyp. Qed.
+Print Assumptions C08_parse_sound_and_complete_9_hyp.
+
+End G19.
+
+(* ---- Proofs/CstSound8Cor.v ---- *)
+Module G20.
+Import RX.Spec.CstFull. Import RX.Spec.CstFullS5. Import RX.Spec.CstFullS6. Import RX.Spec.CstFullS7. Import RX.Spec.CstFullS8. Import RX.Spec.CstFullS9. Import RX.Proofs.CstNsView. Import RX.Proofs.CstSoundP. Import RX.Proofs.CstSound6. Import RX.Proofs.CstSound6U. Import RX.Proofs.CstSound7. Import RX.Proofs.CstSound8. Import RX.Proofs.CstSound8Cor.
+Theorem C08_parse_sound_and_complete_8_hyp :
+  forall text opt d,
+  in_fragment_8 text = true -> allow_dtd opt = true -> parse text opt = Ok d ->
+  exists c : S6.doc, S8.wf_doc c = true /\ S8.render c = text /\
+    (N.of_nat (length (S8.sem c)) < u32_max -> N.of_nat (S8.nattrs c) < u32_max ->
+     S8.distinct_decls_le c (N.to_nat 65535) -> 1 + N.of_nat (S8.ns_cost c) <= u32_max ->
+     CstNsView.view text d = Some (S8.sem c)).
+Proof. exact parse_sound_and_complete_8_hyp. Qed.
+Print Assumptions C08_parse_sound_and_complete_8_hyp.
+
+End G20.
+
+(* ---- Proofs/CstSound7Final.v ---- *)
+Module G21.
 Import RX.Spec.CstFull. Import RX.Spec.CstFullS5. Import RX.Spec.CstFullS6. Import RX.Spec.CstFullS7. Import RX.Spec.CstFullS8. Import RX.Proofs.CstSoundP. Import RX.Proofs.CstSound6. Import RX.Proofs.CstSound6U. Import RX.Proofs.CstSound7. Import RX.Proofs.CstSound7Final.
 Theorem C08_parse_sound_fragment_7 :
   forall text opt d,
@@ -524,10 +561,10 @@ Theorem C08_parse_sound_fragment_7 :
 Proof. exact parse_sound_fragment_7. Qed.
 Print Assumptions C08_parse_sound_fragment_7.
 
-End G19.
+End G21.
 
 (* ---- Proofs/CstSound8Final.v ---- *)
-Module G20.
+Module G22.
 Import RX.Spec.CstFull. Import RX.Spec.CstFullS5. Import RX.Spec.CstFullS6. Import RX.Spec.CstFullS7. Import RX.Spec.CstFullS8. Import RX.Proofs.CstSoundP. Import RX.Proofs.CstSound6. Import RX.Proofs.CstSound6U. Import RX.Proofs.CstSound7. Import RX.Proofs.CstSound8. Import RX.Proofs.CstSound8Final.
 Theorem C08_parse_sound_fragment_8 :
   forall text opt d,
@@ -536,10 +573,10 @@ Theorem C08_parse_sound_fragment_8 :
 Proof. exact parse_sound_fragment_8. Qed.
 Print Assumptions C08_parse_sound_fragment_8.
 
-End G20.
+End G22.
 
 (* ---- Proofs/CstSound6dFinal.v ---- *)
-Module G21.
+Module G23.
 Import RX.Spec.CstFull. Import RX.Spec.CstFullS5. Import RX.Spec.CstFullS6. Import RX.Proofs.CstNsView. Import RX.Proofs.CstSoundP. Import RX.Proofs.CstSound6. Import RX.Proofs.CstSound6U. Import RX.Proofs.CstSound6dFinal.
 Theorem C08_parse_sound_fragment_6 :
   forall text opt d,
@@ -548,10 +585,10 @@ Theorem C08_parse_sound_fragment_6 :
 Proof. exact parse_sound_fragment_6. Qed.
 Print Assumptions C08_parse_sound_fragment_6.
 
-End G21.
+End G23.
 
 (* ---- Proofs/CstSound6eCor.v ---- *)
-Module G22.
+Module G24.
 Import RX.Spec.CstFull. Import RX.Spec.CstFullS5. Import RX.Spec.CstFullS6. Import RX.Proofs.CstNsView. Import RX.Proofs.CstSoundP. Import RX.Proofs.CstSound6. Import RX.Proofs.CstSound6U. Import RX.Proofs.CstSound6eCor.
 Theorem C08_parse_sound_fragment_6_res :
   forall text opt d,
@@ -579,10 +616,10 @@ Theorem C08_parse_sound_and_complete_6_nl :
 Proof. exact parse_sound_and_complete_6_nl. Qed.
 Print Assumptions C08_parse_sound_and_complete_6_nl.
 
-End G22.
+End G24.
 
 (* ---- Proofs/CstSound6cFinal.v ---- *)
-Module G23.
+Module G25.
 Import RX.Spec.CstFull. Import RX.Spec.CstFullS5. Import RX.Spec.CstFullS6. Import RX.Proofs.CstSoundP. Import RX.Proofs.CstSound6. Import RX.Proofs.CstSound6U. Import RX.Proofs.CstSound6a. Import RX.Proofs.CstSound6c. Import RX.Proofs.CstSound6cFinal.
 Theorem C08_parse_sound_fragment_6c :
   forall text opt d,
@@ -591,10 +628,10 @@ Theorem C08_parse_sound_fragment_6c :
 Proof. exact parse_sound_fragment_6c. Qed.
 Print Assumptions C08_parse_sound_fragment_6c.
 
-End G23.
+End G25.
 
 (* ---- Proofs/CstSound6aFinal.v ---- *)
-Module G24.
+Module G26.
 Import RX.Spec.CstFull. Import RX.Spec.CstFullS5. Import RX.Spec.CstFullS6. Import RX.Proofs.CstSoundP. Import RX.Proofs.CstSound6. Import RX.Proofs.CstSound6U. Import RX.Proofs.CstSound6a. Import RX.Proofs.CstSound6aFinal.
 Theorem C08_parse_sound_fragment_6a1 :
   forall text opt d,
@@ -603,10 +640,10 @@ Theorem C08_parse_sound_fragment_6a1 :
 Proof. exact parse_sound_fragment_6a1. Qed.
 Print Assumptions C08_parse_sound_fragment_6a1.
 
-End G24.
+End G26.
 
 (* ---- Proofs/KnownFindingsMore.v ---- *)
-Module G25.
+Module G27.
 Import RX.Proofs.CstNsView. Import RX.Proofs.KnownFindingsMore.
 Theorem C08_d27_refuted :
   exists x : document,
@@ -627,10 +664,10 @@ Theorem C08_d29_refuted :
 Proof. exact d29_refuted. Qed.
 Print Assumptions C08_d29_refuted.
 
-End G25.
+End G27.
 
 (* ---- Proofs/KnownFindingsD21.v ---- *)
-Module G26.
+Module G28.
 Import RX.Spec.CstNs. Import RX.Proofs.NsRejDefs. Import RX.Proofs.NsRejBuild. Import RX.Proofs.NsRejMain. Import RX.Proofs.KnownFindingsD21.
 Theorem C08_d21_refuted :
   exists (c : doc) (d : document),
@@ -657,10 +694,10 @@ Theorem C08_d21_outside_class_variant :
 Proof. exact d21_outside_class_variant. Qed.
 Print Assumptions C08_d21_outside_class_variant.
 
-End G26.
+End G28.
 
 (* ---- Proofs/NsRejMain.v ---- *)
-Module G27.
+Module G29.
 Import CstNs.
 Theorem C08_ns_violation_rejected :
   forall (c : doc) (opt : options),
@@ -673,10 +710,10 @@ Theorem C08_ns_violation_rejected :
 Proof. exact ns_violation_rejected. Qed.
 Print Assumptions C08_ns_violation_rejected.
 
-End G27.
+End G29.
 
 (* ---- Proofs/CstFullRejS11NsMain.v ---- *)
-Module G28.
+Module G30.
 Import RX.Spec.CstFull. Import RX.Spec.CstFullS4. Import RX.Spec.CstFullS6. Import RX.Spec.CstFullS11. Import RX.Proofs.CstNsView. Import RX.Proofs.CstFullS11Main. Import RX.Proofs.NsRejDefs. Import RX.Proofs.NsRejBuild. Import RX.Proofs.CstFullRejSem. Import RX.Proofs.CstFullRejS11Sem. Import RX.Proofs.CstFullRejTrace. Import RX.Proofs.CstFullRejS11Doc. Import RX.Proofs.CstFullRejMain. Import RX.Proofs.CstFullRejS11Main. Import RX.Proofs.CstFullNsRejMain. Import RX.Proofs.CstFullRejS11NsMain.
 Theorem C08_ns_violation_rejected_full_s11 :
   forall (d : S6.doc) (opt : options) (cT : CstFull.doc bpieces) (tr : list Detector.lop),
@@ -695,10 +732,10 @@ Theorem C08_ns_violation_rejected_full_s11 :
 Proof. exact ns_violation_rejected_full_s11. Qed.
 Print Assumptions C08_ns_violation_rejected_full_s11.
 
-End G28.
+End G30.
 
 (* ---- Proofs/CstFullNsRejMain.v ---- *)
-Module G29.
+Module G31.
 Import RX.Spec.CstFull. Import RX.Spec.CstFullS4. Import RX.Spec.CstFullS6. Import RX.Proofs.CstNsView. Import RX.Proofs.CstFullS6Main. Import RX.Proofs.NsRejDefs. Import RX.Proofs.NsRejBuild. Import RX.Proofs.CstFullRejSem. Import RX.Proofs.CstFullRejTrace. Import RX.Proofs.CstFullRejDoc. Import RX.Proofs.CstFullRejMain. Import RX.Proofs.CstFullNsRejMain.
 Theorem C08_ns_violation_rejected_full_s6 :
   forall (d : S6.doc) (opt : options) (cT : CstFull.doc bpieces) (tr : list Detector.lop),
@@ -717,4 +754,4 @@ Theorem C08_ns_violation_rejected_full_s6 :
 Proof. exact ns_violation_rejected_full_s6. Qed.
 Print Assumptions C08_ns_violation_rejected_full_s6.
 
-End G29.
+End G31.
